@@ -11,6 +11,10 @@
                             with "/" restarts at the root, ".." pops one level
      checked_target dest name path   where rebuild copies a file to: None = ValueError, nothing written
      prefix p l             l is p or lies under p
+   The second part connects this to the metafile itself (Model/RebuildMeta.v, see Props/C13.v): extract meta is
+   Metadata.extract on the decoded metafile, safe c = the element c (raw bytes; a str iff valid UTF-8) passes _check_parts,
+   tree_keys tree = the keys the walk over a file tree meets (the tree's and those of every directory below it),
+   text = the element as a string, full_text e = the "/"-joined components handed to os.path.join(dest, .).
    Outside the theorems: symbolic links already present inside the destination. *)
 From Coq Require Import List String.
 From TF Require Import Model.PathSafe Proofs.PathSafeProofs.
@@ -58,3 +62,92 @@ Theorem C19_unsanitised_refuted :
   exists dest cs : list string, ~ prefix (resolve dest) (resolve (dest ++ cs)).
 Proof. exact unsanitised_refuted. Qed.
 Print Assumptions C19_unsanitised_refuted.
+
+(* ---------------------------------------------------------------------------------------------- *)
+(* from the metafile to the copy targets                                                          *)
+(* ---------------------------------------------------------------------------------------------- *)
+From TF Require Import Lib.Base Model.Bencode Spec.Bep52 Model.Rebuild Model.RebuildMeta Proofs.RebuildMetaProofs.
+
+(* whatever the metafile is -- v1 single file, v1 file list whose entries may carry any further keys (attr, symlink
+   path, ...), v2 / hybrid single-file form, v2 / hybrid file tree of any depth: if a Metadata object comes into being,
+   the name and EVERY component of every entry's `full` have passed _check_parts, `full` starts with the name, `path`
+   is its parent and `filename` its last component *)
+Theorem C19_accepted_metafile_is_validated_everywhere : forall (meta : value) (x : extracted), extract meta = Some x ->
+  safe (x_name x) /\
+  Forall (fun e => Forall safe (e_full e) /\ (exists rest, e_full e = x_name x :: rest) /\
+                   e_path e = removelast (e_full e) /\ e_filename e = last (e_full e) []) (x_files x).
+Proof. exact extract_validates_everything. Qed.
+Print Assumptions C19_accepted_metafile_is_validated_everywhere.
+
+(* refusal (no Metadata object, nothing is ever copied): an unsafe name ... *)
+Theorem C19_unsafe_name_refused : forall (meta : value) (info : dict) (name : bytes),
+  info_of meta info -> lookup rk_name info = Some (BStr name) -> safe_b name = false -> extract meta = None.
+Proof. exact extract_refuses_unsafe_name. Qed.
+Print Assumptions C19_unsafe_name_refused.
+
+(* ... an unsafe or non-string element in the path of ANY entry of a v1 file list, whatever else that entry's
+   dictionary contains (the hypotheses do not mention any other key: a flag cannot switch the validation off) ... *)
+Theorem C19_unsafe_v1_path_refused : forall (meta : value) (info : dict) (items : list value) (d : dict) (l : list value),
+  info_of meta info ->
+  is_two (match lookup rk_meta_version info with Some v => v | None => BInt 1 end) = false ->
+  lookup rk_length info = None -> lookup rk_files info = Some (BList items) ->
+  In (BDict d) items -> lookup rk_path d = Some (BList l) ->
+  (items_bytes l = None \/ exists path, items_bytes l = Some path /\ Exists (fun c => safe_b c = false) path) ->
+  extract meta = None.
+Proof. exact extract_refuses_unsafe_v1_path. Qed.
+Print Assumptions C19_unsafe_v1_path_refused.
+
+Theorem C19_v1_entry_other_keys_irrelevant : forall (name : bytes) (d d' : dict),
+  lookup rk_path d = lookup rk_path d' -> lookup rk_length d = lookup rk_length d' ->
+  v1_entry name (BDict d) = v1_entry name (BDict d').
+Proof. exact v1_entry_ignores_other_keys. Qed.
+Print Assumptions C19_v1_entry_other_keys_irrelevant.
+
+(* ... an unsafe key anywhere in a v2 / hybrid file tree: a directory key or a file key, at any depth, first or later
+   sibling, even of a directory that holds no file *)
+Theorem C19_unsafe_tree_key_refused : forall (meta : value) (info tree : dict),
+  info_of meta info ->
+  is_two (match lookup rk_meta_version info with Some v => v | None => BInt 1 end) = true ->
+  lookup rk_file_tree info = Some (BDict tree) ->
+  Exists (fun k => safe_b k = false) (tree_keys tree) -> extract meta = None.
+Proof. exact extract_refuses_unsafe_tree_key. Qed.
+Print Assumptions C19_unsafe_tree_key_refused.
+
+(* what "safe" means on the raw bytes of an element *)
+Theorem C19_safe_element : forall c : bytes, safe c ->
+  utf8_valid c = true /\ c <> [] /\ c <> ["."%char] /\ c <> ["."%char; "."%char] /\ ~ In slash c /\ ~ In nul c.
+Proof. exact safe_spec. Qed.
+Print Assumptions C19_safe_element.
+
+(* every entry of every accepted metafile is placed at destination/<full>: inside the destination, for every
+   destination path *)
+Theorem C19_every_entry_target_inside : forall (meta : value) (x : extracted) (dest : list string), extract meta = Some x ->
+  Forall (fun e =>
+            resolve (dest ++ map text (e_full e)) = resolve dest ++ map text (e_full e) /\
+            prefix (resolve dest) (resolve (dest ++ map text (e_full e)))) (x_files x).
+Proof. exact target_inside. Qed.
+Print Assumptions C19_every_entry_target_inside.
+
+(* ... also as the text handed to copypath, os.path.join(dest, "/".join(full)) *)
+Theorem C19_every_copy_text_inside : forall (meta : value) (x : extracted) (dest : list string), extract meta = Some x ->
+  Forall (fun e =>
+            resolve (dest ++ [full_text e]) = resolve dest ++ map text (e_full e) /\
+            prefix (resolve dest) (resolve (dest ++ [full_text e]))) (x_files x).
+Proof. exact copy_target_inside. Qed.
+Print Assumptions C19_every_copy_text_inside.
+
+(* the v2 route end to end: every copypath call made for an accepted metafile copies a verified candidate (C14) to a
+   path inside the destination *)
+Theorem C19_v2_rebuild_copies_inside : forall (H256 : bytes -> bytes) B, 0 < B -> forall k pl, pl = B * 2 ^ k ->
+  forall (fm : filemap) (meta : value) (x : extracted) (copies : list copy) (count : nat) (dest : list string),
+  extract meta = Some x -> rebuild_v2 H256 B pl fm x = Some (copies, count) ->
+  count = length copies /\
+  forall l full, In (l, full) copies ->
+    exists e cands content,
+      In e (x_files x) /\ full = full_text e /\
+      fm_lookup fm (text (e_filename e)) = Some cands /\ In (l, content) cands /\
+      verified H256 B e (l, content) /\
+      resolve (dest ++ [full]) = resolve dest ++ map text (e_full e) /\
+      prefix (resolve dest) (resolve (dest ++ [full])).
+Proof. exact rebuild_v2_copies_verified_inside. Qed.
+Print Assumptions C19_v2_rebuild_copies_inside.
